@@ -61,6 +61,7 @@ func isIdent(s string) bool {
 
 func checkConst(c *core.Ctx, v string) {
 	c.Eval(1)
+	c.Note(func() interface{} { return kase{Value: util.Q(v)} })
 	c.DistinctS("const", v)
 	var res string
 	p := core.Recover(func() {
@@ -78,6 +79,7 @@ func checkConst(c *core.Ctx, v string) {
 
 func checkPrefix(c *core.Ctx, pre, v string) {
 	c.Eval(1)
+	c.Note(func() interface{} { pq := util.Q(pre); return kase{Prefix: &pq, Value: util.Q(v)} })
 	c.DistinctS("prefix", pre, v)
 	var res string
 	p := core.Recover(func() {
